@@ -5,7 +5,7 @@
 export GOFLAGS=-mod=mod GOPROXY=off GOSUMDB=off GOTOOLCHAIN=local
 V=$(cd "$(dirname "$0")/.." && pwd)
 cd $V
-WT=/dev/shm/verif-regress-wt
+WT=/dev/shm/verif-regress-wt-$$
 seeds=${@:-$(ls seeded | grep -E '^C[0-9]+-')}
 rm -rf $WT; git -C /repo worktree prune; git -C /repo worktree add -q --detach $WT HEAD || exit 2
 for s in $seeds; do
@@ -15,9 +15,9 @@ for s in $seeds; do
   res="MISSED"
   for try in "$p quick" "$p thorough" $(for a in $also; do echo "$a quick"; done | tr '\n' '|' | sed 's/|$//' | tr '|' '\n' | sed 's/ /_/'); do
     set -- $(echo $try | tr '_' ' ')
-    o=$(VERIF_REPO=$WT VERIF_OUT=/dev/shm/verif-regress-out timeout 3000 ./check $1 $2 2>&1); rc=$?
+    o=$(VERIF_REPO=$WT VERIF_OUT=/dev/shm/verif-regress-out-$$ timeout 3000 ./check $1 $2 2>&1); rc=$?
     if [ $rc -eq 1 ]; then res="CAUGHT by $1 $2: $(echo "$o" | grep -E 'sig:' | head -1 | sed 's/^ *sig: //' | cut -c1-100)"; break; fi
   done
   echo "$s $res"
 done
-git -C /repo worktree remove --force $WT; rm -rf /dev/shm/verif-regress-out
+git -C /repo worktree remove --force $WT; rm -rf /dev/shm/verif-regress-out-$$
